@@ -116,7 +116,7 @@ func c16Shutdown(c *core.Case) *core.Result {
 	if !began {
 		return c.Inconclusive("the child did not log the beginning of its graceful stop")
 	}
-	url := fmt.Sprintf("http://127.0.0.1:%d/api/v1/collections/colA/documents/%s", proc.RESTPort, key)
+	url := fmt.Sprintf("http://127.0.0.1:%d/api/v1/collections/colA/documents/%s-other", proc.RESTPort, key) // another key than the held one: no wait for its lock is involved
 	c.Step("HTTP POST %s while the shutdown waits for the held request", url)
 	type answer struct {
 		code int
